@@ -300,6 +300,78 @@ func runC14(r *rt.Runner) {
 		})
 	}
 
+	// one segment of more than 64 MiB (lengths are 32-bit; nothing in the format
+	// limits a segment to the size of a typical font)
+	nGiant := r.N(1, 3)
+	for k := 0; k < nGiant; k++ {
+		k := k
+		r.Case("stream/giant-segment", func(c *rt.C) {
+			rng := c.Rand()
+			ln := []int{64<<20 + 1, 70_000_001, 33<<20 + 12345}[k%3]
+			typ := byte(1 + k%2)
+			stream := make([]byte, 0, ln+40)
+			stream = append(stream, 0x80, 1, 3, 0, 0, 0, 'a', 'b', 'c')
+			stream = append(stream, 0x80, typ, byte(ln), byte(ln>>8), byte(ln>>16), byte(ln>>24))
+			body := len(stream)
+			stream = stream[:body+ln]
+			pat := make([]byte, 8191)
+			for i := range pat {
+				pat[i] = byte(rng.IntN(256))
+			}
+			for i := body; i < len(stream); i += len(pat) {
+				copy(stream[i:], pat)
+			}
+			stream = append(stream, 0x80, 3)
+			c.SetDetail(func() string {
+				return fmt.Sprintf("a type-%d segment of %d bytes between a small text segment and the end marker", typ, ln)
+			})
+			src := &mon.PlanReader{Data: stream, Chunks: []int{1 << 20}}
+			dec := pfb.Decode(src)
+			buf := make([]byte, 1<<16)
+			pos, bad := 0, -1
+			const hexd = "0123456789abcdef"
+			expect := func(i int) byte { // byte i of the expected output
+				if i < 3 {
+					return "abc"[i]
+				}
+				i -= 3
+				if typ == 1 {
+					return stream[body+i]
+				}
+				b := stream[body+i/2]
+				if i%2 == 0 {
+					return hexd[b>>4]
+				}
+				return hexd[b&15]
+			}
+			total := 3 + ln
+			if typ == 2 {
+				total = 3 + 2*ln
+			}
+			var err error
+			for {
+				var n int
+				n, err = dec.Read(buf)
+				for i := 0; i < n && bad < 0; i++ {
+					if pos+i >= total || buf[i] != expect(pos+i) {
+						bad = pos + i
+					}
+				}
+				pos += n
+				if err != nil {
+					break
+				}
+			}
+			c.Count("segments beyond 64 MiB decoded")
+			if err != io.EOF {
+				c.Violation("giant|error", fmt.Sprintf("well-formed stream with a segment of %d bytes: reading ended with %v after %d of %d expected bytes", ln, err, pos, total), "")
+			} else if bad >= 0 || pos != total {
+				c.Violation("giant|bytes", fmt.Sprintf("segment of %d bytes: decoded %d bytes, expected %d; first difference at %d", ln, pos, total, bad), "")
+			}
+			c.Nontrivial([]byte(fmt.Sprintf("giant|%d|%d", typ, ln)), func() string { return fmt.Sprintf("type-%d segment of %d bytes", typ, ln) })
+		})
+	}
+
 	// all 65536 first-two-byte header values
 	for hi := 0; hi < 256; hi++ {
 		hi := hi
